@@ -17,6 +17,8 @@ IOUGRID = [0.125, 0.25, 0.5, 0.75]
 CONF = [0.25, 1.0]
 ENV = {'TA': 'SortAttributes', 'M': 'SortMetric', 'OA': 'Universal2DBox', 'N': 'NoopNotifier'}
 F32_MULT = 1000000.0
+MAHAGRID = [0.0, 4.0, 11.0, 11.125, 50.0, 99.5]
+CHI2INV95_4 = 11.070   # CHI2INV95[4], as the documented gate of the box filter (5th table entry)
 
 
 def _marker(b):
@@ -67,6 +69,17 @@ def _calls(P):
             return Adt('Universal2DBox', 0, (b.fields[0], b.fields[1], NONE, b.fields[3], b.fields[4], b.fields[5], NONE))
         return Adt('Universal2DBox', 0, (f32(float(400 + m)), f32(1.0), NONE, f32(1.0), f32(1.0), b.fields[5], NONE))
 
+    def kf_distance(vm, cal, args):
+        # squared Mahalanobis distance of the candidate's box from the stored track's filter state: uninterpreted number
+        st = args[1]
+        st = vm.deref(st) if isinstance(st, Ref) else st
+        t = int(st.tag[2:])
+        d = _marker(box(vm, args[2])) - 100
+        return vm.notes['maha'][(d, t)]
+
+    def kf_new(vm, cal, args):
+        return Opaque('Universal2DBoxKalmanFilter', 'f')
+
     def rng_gen(vm, cal, args):
         x = vm.fresh(64, 'candidate_id')
         ids = vm.notes['ids']
@@ -81,6 +94,7 @@ def _calls(P):
         return NotImplemented
     return {('Universal2DBox', None, 'too_far'): too_far, ('Universal2DBox', 'ObservationAttributes', 'calculate_metric_object'): cmo,
             ('Universal2DBox', None, 'dist_in_2r'): dist_in_2r,
+            ('Universal2DBoxKalmanFilter', None, 'distance'): kf_distance, ('Universal2DBoxKalmanFilter', None, 'new'): kf_new,
             ('SortAttributes', 'TrackAttributesKalmanPrediction', 'make_prediction'): make_prediction,
             ('ThreadRng', 'Rng', 'gen'): rng_gen, ('*', 'Rng', 'gen'): rng_gen, '*': star}
 
@@ -93,7 +107,7 @@ def _trackbox(j):
     return Adt('Universal2DBox', 0, (f32(float(200 + j)), f32(0.0), NONE, f32(1.0), f32(1.0), f32(1.0), NONE))
 
 
-def mk_step(ndet, nstored, shards=1, aw_zero=False, lite=False, fork=False):
+def mk_step(ndet, nstored, shards=1, aw_zero=False, lite=False, fork=False, maha=False):
     def q(vm, P):
         fn = P.impl_methods[('Sort', None, 'predict_with_scene')][0][0]
         scene = vm.fresh(64, 'scene')
@@ -110,7 +124,9 @@ def mk_step(ndet, nstored, shards=1, aw_zero=False, lite=False, fork=False):
         hist = 2
         opts = Cell(sort_options(P, vm, ents, max_idle, history_length=usize(hist)), 'opts')
         thr = grid_f32(vm, 'iou_threshold', [0.25] if lite else [0.25, 0.5])
-        method = variant(P, 'PositionalMetricType', 'IoU', thr)
+        method = variant(P, 'PositionalMetricType', 'Mahalanobis') if maha else variant(P, 'PositionalMetricType', 'IoU', thr)
+        if maha:
+            thr = f32(1.0)    # MAHALANOBIS_NEW_TRACK_THRESHOLD: the documented new-track threshold of the Mahalanobis mode
         minc = f32(0.5)
         metric = mk(P, 'SortMetric', method=method, min_confidence=minc)
         noop = Adt('NoopNotifier', 0, ())
@@ -174,13 +190,16 @@ def mk_step(ndet, nstored, shards=1, aw_zero=False, lite=False, fork=False):
             cid = vm.fresh(64, 'det%d_custom' % i, signed=True)
             dets.append((_detbox(i, conf), SOME(cid) if has_cid else NONE))
             dinfo.append(dict(conf=conf, cid=cid if has_cid else None))
-        far, iou = {}, {}
+        far, iou, mah = {}, {}, {}
         for i in range(ndet):
             for j in range(nstored):
                 far[(i, j)] = vm.fresh('bool', 'too_far_%d_%d' % (i, j))
+                if maha:
+                    mah[(i, j)] = grid_f32(vm, 'maha_%d_%d' % (i, j), MAHAGRID)
+                    continue
                 overlap = vm.choose_n(2, "boxes overlap") == 0
                 iou[(i, j)] = SOME(grid_f32(vm, 'iou_%d_%d' % (i, j), [0.125, 0.5, 0.75] if lite else IOUGRID)) if overlap else NONE
-        vm.notes.update(far=far, iou=iou, ndet=ndet, nstored=nstored)
+        vm.notes.update(far=far, iou=iou, maha=mah, ndet=ndet, nstored=nstored)
         arg = Ref(Cell(VecV(tuple(dets), 'slice'), 'bboxes'))
         r = vm.exec_fn(fn, [Ref(sort), scene, arg], {})
         # =================================================================== oracle
@@ -194,12 +213,20 @@ def mk_step(ndet, nstored, shards=1, aw_zero=False, lite=False, fork=False):
             c = f_ite(f_lt(dinfo[i]['conf'], minc), minc, dinfo[i]['conf'])
             for j in range(nstored):
                 tj = info[j]
-                if not tj['same_scene'] or iou[(i, j)].variant == 0:
+                if not tj['same_scene'] or (not maha and iou[(i, j)].variant == 0):
                     gated[(i, j)] = z3.BoolVal(False)
                     W[(i, j)] = z3.BitVecVal(0, 64)
                     continue
-                w = f_mul(iou[(i, j)].fields[0], c)
                 alive = z3.ULE(new_epoch - tj['last'].e, max_idle.e)
+                if maha:
+                    # inverted 95% chi-square cost (4 degrees of freedom) over the effective confidence; every pair that is
+                    # not too far has a weight, the new-track threshold 1.0 decides in the assignment
+                    d = mah[(i, j)]
+                    w = f_div(f_ite(f_gt(d, f32(CHI2INV95_4)), f32(0.0), f_sub(f32(100.0), d)), c)
+                    gated[(i, j)] = z3.And(alive, z3.Not(far[(i, j)]), z3.Not(f_gt(d, f32(CHI2INV95_4))))
+                    W[(i, j)] = vm.cast(f_mul(w, f32(F32_MULT)), 'i64', 'FloatToInt').e
+                    continue
+                w = f_mul(iou[(i, j)].fields[0], c)
                 gated[(i, j)] = z3.And(alive, z3.Not(far[(i, j)]), f_ge(w, thr))
                 W[(i, j)] = vm.cast(f_mul(w, f32(F32_MULT)), 'i64', 'FloatToInt').e
         thr_i = vm.cast(f_mul(thr, f32(F32_MULT)), 'i64', 'FloatToInt').e
@@ -299,8 +326,8 @@ struct MT { id: u64, scene: u64, pos: i32, last: usize, len: usize }
 
 /// deterministic pseudo-random multi-scene histories against a model: detections at well separated positions (1000 apart),
 /// so a detection overlaps exactly the track at its position (IoU 1) and nothing else
-fn history(max_idle: usize, shards: usize, seed: u64, steps: usize) {
-    let mut t = Sort::new(shards, 2, max_idle, PositionalMetricType::IoU(0.3), 0.5, None, 1.0 / 20.0, 1.0 / 160.0);
+fn history(max_idle: usize, shards: usize, seed: u64, steps: usize, maha: bool) {
+    let mut t = Sort::new(shards, 2, max_idle, if maha { PositionalMetricType::Mahalanobis } else { PositionalMetricType::IoU(0.3) }, 0.5, None, 1.0 / 20.0, 1.0 / 160.0);
     let mut model: Vec<MT> = vec![];
     let mut issued: HashSet<u64> = HashSet::new();
     let mut epochs = [0usize; 3];
@@ -319,7 +346,7 @@ fn history(max_idle: usize, shards: usize, seed: u64, steps: usize) {
             (b, if (rng >> (50 + *p)) & 1 == 1 { Some(step as i64 * 10 + *p as i64) } else { None })
         }).collect();
         let recs = t.predict_with_scene(scene, &dets);
-        let ctx = format!("max_idle {} shards {} seed {} step {} scene {}", max_idle, shards, seed, step, scene);
+        let ctx = format!("max_idle {} shards {} seed {} step {} scene {} maha {}", max_idle, shards, seed, step, scene, maha);
         assert_eq!(recs.len(), dets.len(), "one record per detection ({})", ctx);
         let mut seen = HashSet::new();
         for ((p, d), r) in positions.iter().zip(dets.iter()).zip(recs.iter()) {
@@ -338,7 +365,29 @@ fn history(max_idle: usize, shards: usize, seed: u64, steps: usize) {
 
 #[test]
 fn replay() {
-    for seed in 0..6u64 { for max_idle in [0usize, 1, 3] { for shards in [1usize, 2] { history(max_idle, shards, seed, 60); } } }
+    for seed in 0..6u64 { for max_idle in [0usize, 1, 3] { for shards in [1usize, 2] { history(max_idle, shards, seed, 60, false); history(max_idle, shards, seed, 40, true); } } }
+}
+
+/// Mahalanobis mode: a detection within bounding-circle reach of the only stored track but outside the 95% chi-square gate
+/// starts a new track (1 candidate x 1 track and 2 x 1); one inside the gate continues it
+#[test]
+fn replay_chi_square_gate() {
+    for shards in [1usize, 2] { for n_near in [1usize, 2] {
+        let mut t = Sort::new(shards, 2, 5, PositionalMetricType::Mahalanobis, 0.5, None, 1.0 / 20.0, 1.0 / 160.0);
+        let b = |x: f32, y: f32| -> (similari::utils::bbox::Universal2DBox, Option<i64>) { (BoundingBox::new(x, y, 10.0, 20.0).into(), None) };
+        let first = t.predict_with_scene(7, &[b(0.0, 0.0)]);
+        let id0 = first[0].id;
+        let same = t.predict_with_scene(7, &[b(0.25, 0.0)]);
+        assert_eq!(same[0].id, id0, "a detection inside the chi-square gate continues the track (shards {})", shards);
+        assert_eq!(same[0].length, 2);
+        // 14 px aside: inside the bounding circles' reach (radius ~11.2 each), far outside the gate (sigma ~ 2 px)
+        let dets: Vec<_> = (0..n_near).map(|k| b(14.0, 3.0 * k as f32)).collect();
+        let off = t.predict_with_scene(7, &dets);
+        for r in off.iter() {
+            assert_ne!(r.id, id0, "a detection outside the 95% chi-square gate starts a new track (shards {}, {} detections)", shards, n_near);
+            assert_eq!(r.length, 1);
+        }
+    } }
 }
 '''
 
@@ -367,6 +416,14 @@ def step_queries():
 
 
 MIR = step_queries()
+# Mahalanobis mode: the squared distance to the track's filter state is an uninterpreted number from an exact grid around the
+# 95% chi-square gate; SortMetric::metric, calculate_cost, SortVoting (new-track threshold 1.0) are the real code
+for (nd, ns, tier, lite) in [(1, 1, 'quick', False), (2, 1, 'quick', False), (1, 2, 'quick', False), (2, 2, 'thorough', True)]:
+    MIR.append(MQ("step_sort_d%d_t%d_s1_maha" % (nd, ns), tier, mk_step(nd, ns, 1, lite=lite, maha=True),
+                  "one Sort::predict_with_scene call in Mahalanobis mode from an arbitrary valid tracker state: a detection continues a track only within the 95% chi-square gate, "
+                  "within reach, unexpired, same scene; maximum-weight one-to-one over the gated pairs with unmatched = the new-track threshold; records / ids / lengths / epochs as in IoU mode",
+                  "%d detections, %d stored tracks, 1 shard; squared Mahalanobis distances from {0,4,11,11.125,50,99.5}; too_far / Kalman prediction uninterpreted" % (nd, ns),
+                  FUNCS + ["similari::utils::kalman::kalman_2d_box::Universal2DBoxKalmanFilter::calculate_cost"], spec_calls=_calls, replay=replay_step, max_paths=200000, timeout=3000))
 # the same call under every command-granularity schedule of the store workers (2 shards)
 MIR.append(MQ("step_sort_d1_t2_s2_sched", 'quick', mk_step(1, 2, 2, lite=True, fork=True),
               "one Sort::predict_with_scene call, 2 shards, EVERY command-granularity schedule of the shard workers (a worker may run right after a command is queued; "
